@@ -52,8 +52,19 @@ func makeNamedType(name string, underlying types.Type) *types.Named {
 	return types.NewNamed(obj, underlying, nil)
 }
 
+// A reflect.Value is structure{rtype, value, addr, ro}: addr is the storage the
+// value was read from (nil when not addressable), ro marks values reached
+// through unexported fields.
 func makeReflectValue(t types.Type, v value) value {
-	return structure{rtype{t}, v}
+	return structure{rtype{t}, v, (*value)(nil), false}
+}
+
+func makeReflectLValue(t types.Type, addr *value, ro bool) value {
+	var v value
+	if addr != nil {
+		v = *addr
+	}
+	return structure{rtype{t}, v, addr, ro}
 }
 
 // Given a reflect.Value, returns its rtype.
@@ -400,8 +411,8 @@ func ext۰reflect۰Value۰CanAddr(fr *frame, args []value) value {
 
 func ext۰reflect۰Value۰CanInterface(fr *frame, args []value) value {
 	// Signature: func (v reflect.Value) bool
-	// Always true for our representation.
-	return true
+	ro, _ := args[0].(structure)[3].(bool)
+	return !ro
 }
 
 func ext۰reflect۰Value۰Elem(fr *frame, args []value) value {
@@ -410,11 +421,7 @@ func ext۰reflect۰Value۰Elem(fr *frame, args []value) value {
 	case iface:
 		return makeReflectValue(x.t, x.v)
 	case *value:
-		var v value
-		if x != nil {
-			v = *x
-		}
-		return makeReflectValue(rV2T(args[0]).t.Underlying().(*types.Pointer).Elem(), v)
+		return makeReflectLValue(rV2T(args[0]).t.Underlying().(*types.Pointer).Elem(), x, false)
 	default:
 		panic(fmt.Sprintf("reflect.(Value).Elem(%T)", x))
 	}
@@ -424,7 +431,16 @@ func ext۰reflect۰Value۰Field(fr *frame, args []value) value {
 	// Signature: func (v reflect.Value, i int) reflect.Value
 	v := args[0]
 	i := args[1].(int)
-	return makeReflectValue(rV2T(v).t.Underlying().(*types.Struct).Field(i).Type(), rV2V(v).(structure)[i])
+	st := rV2T(v).t.Underlying().(*types.Struct)
+	parent := v.(structure)
+	ro, _ := parent[3].(bool)
+	ro = ro || !st.Field(i).Exported()
+	if addr, ok := parent[2].(*value); ok && addr != nil {
+		return makeReflectLValue(st.Field(i).Type(), &(*addr).(structure)[i], ro)
+	}
+	r := makeReflectValue(st.Field(i).Type(), rV2V(v).(structure)[i]).(structure)
+	r[3] = ro
+	return r
 }
 
 func ext۰reflect۰Value۰Float(fr *frame, args []value) value {
@@ -493,8 +509,30 @@ func ext۰reflect۰Value۰IsValid(fr *frame, args []value) value {
 }
 
 func ext۰reflect۰Value۰Set(fr *frame, args []value) value {
-	// TODO(adonovan): implement.
+	dst := args[0].(structure)
+	addr, ok := dst[2].(*value)
+	if !ok || addr == nil {
+		panic(targetPanic{iface{types.Typ[types.String], "reflect: reflect.Value.Set using unaddressable value"}})
+	}
+	if ro, _ := dst[3].(bool); ro {
+		panic(targetPanic{iface{types.Typ[types.String], "reflect: reflect.Value.Set using value obtained using unexported field"}})
+	}
+	store(rV2T(args[0]).t, addr, rV2V(args[1]))
 	return nil
+}
+
+func ext۰reflect۰Value۰CanSet(fr *frame, args []value) value {
+	v := args[0].(structure)
+	addr, ok := v[2].(*value)
+	ro, _ := v[3].(bool)
+	return ok && addr != nil && !ro
+}
+
+func ext۰reflect۰Indirect(fr *frame, args []value) value {
+	if _, ok := rV2T(args[0]).t.Underlying().(*types.Pointer); ok {
+		return ext۰reflect۰Value۰Elem(fr, args)
+	}
+	return args[0]
 }
 
 func ext۰reflect۰valueInterface(args []value) value {
@@ -563,6 +601,8 @@ func (i *Engine) initReflect() {
 		rV.SetUnderlying(types.NewStruct([]*types.Var{
 			types.NewField(token.NoPos, r.Pkg, "t", tEface, false), // a lie
 			types.NewField(token.NoPos, r.Pkg, "v", tEface, false),
+			types.NewField(token.NoPos, r.Pkg, "addr", tEface, false),
+			types.NewField(token.NoPos, r.Pkg, "ro", tEface, false),
 		}, nil))
 	}
 
